@@ -133,6 +133,7 @@ func runC18(t *Toks) string {
 	}
 	// the offending connection
 	answered := false
+	okDuring := false
 	const id = 7001
 	if target == "server" {
 		wp.ask(fmt.Sprintf("script %d w", id), "script-ok", 2*time.Second)
@@ -154,6 +155,9 @@ func runC18(t *Toks) string {
 			_, _ = c.Write([]byte{0x16, 0x03, 0x01, 0x02, 0x00, 0x01, 0x00, 0x01})
 		}
 		answered = gotResponse(c, 400*time.Millisecond)
+		// "such attempts end only their own connection": a conforming client that connects
+		// while the offender is still there is served
+		okDuring = bystander(9004)
 		c.Close()
 	default:
 		var cli *tls.Config
@@ -186,7 +190,10 @@ func runC18(t *Toks) string {
 		if err == nil {
 			_, _ = c.Write(plainFrame(op, id))
 			answered = gotResponse(c, 700*time.Millisecond)
+			okDuring = bystander(9004)
 			c.Close()
+		} else {
+			okDuring = bystander(9004)
 		}
 	}
 	time.Sleep(50 * time.Millisecond)
@@ -203,7 +210,7 @@ func runC18(t *Toks) string {
 		ran = answered // the directory's handlers always answer; no event hooks inside it
 	}
 	okAfter := bystander(9002)
-	return fmt.Sprintf("handler_ran=%s bystanders=%s%s alive=%s", b01(ran), b01(okBefore), b01(okAfter), b01(!dead))
+	return fmt.Sprintf("handler_ran=%s bystanders=%s%s%s alive=%s", b01(ran), b01(okBefore), b01(okDuring), b01(okAfter), b01(!dead))
 }
 
 // c18ClientConfig: client TLS configuration for the harness server (our CA) or
